@@ -88,6 +88,25 @@ CLAIMED = {
             "two-step sequences, r in {1.42,1.5,1.75,2,3}, n <= 30).",
             "bounded universe (3x3 die, <=2 regions; random dies to 12x12); dies with no refinable region excluded; 7 embeddings",
             "DESIGN.md 4 (C11)", ["Geometry", "DieOps", "Die", "DieMC", "DieTrace"]),
+    "C04": ("TLA+ spec Fpef (abstract FPEF document, assertion-shaped Read, intended Write) model-checked by TLC for Read(Write(n)) = n and "
+            "repeatable Write; TLC-generated and seeded random documents loaded, written, reloaded and rewritten by frame.netlist.Netlist "
+            "under 8 float embeddings; both netlists observed through the public accessors and judged clause by clause by TLC (FpefTrace)",
+            "Every document of a bounded universe (every module kind x area form x centre x aspect ratio x rectangle lists with regions, nets "
+            "of arity 2-4 and several weights) is enumerated by TLC, the round-trip and repeatability laws are TLC invariants of the model, and "
+            "each real write/read/write is judged by TLC against the statement's clauses; random larger documents follow the same path.",
+            "bounded universe (<= 2 modules from 22/58 variants, <= 4 centre carriers; random to 6 modules, 4 rectangles, 5 nets); floats sampled "
+            "by 8 embeddings; rectangle/pin/net order is model conformance only; thorough replays a seeded sample of the enumerated documents",
+            "DESIGN.md 4 (C04)", ["Geometry", "Fpef", "FpefTrace"]),
+    "C05": ("TLA+ spec Fpef: declarative WellFormed vs assertion-shaped Read, Derive (exact fractions, integer-square-root wire-length interval), "
+            "Inject (11 defect classes x positions x variants) model-checked by TLC; documents and every injection replayed on "
+            "frame.netlist.Netlist under 8 float embeddings; observations and accept/reject verdicts judged by TLC (FpefTrace)",
+            "TLC enumerates every well-formed document of a bounded universe and every single-defect injection of it, proves on the model that "
+            "acceptance = well-formedness and that the derived quantities meet their definitions, and judges each real load (areas, centroids, "
+            "all/fixed rectangle lists, wire length within an integer-square-root bracket) and each real rejection; random larger documents get "
+            "their injections from the same Inject definition.",
+            "bounded universe as C04 (2.2 M states thorough); wire length judged to about 0.03 lattice units per pin; identifier validity "
+            "modelled by a fixed list of invalid spellings; a refused well-formed document is reported as clause `loads`; floats sampled by 8 embeddings",
+            "DESIGN.md 4 (C05)", ["Geometry", "Fpef", "FpefTrace"]),
     "C06": ("TLA+ spec Stog (declarative STOG definition + transcription of create_stog/find_location + list-editing state machine) "
             "model-checked by TLC; every TLC-emitted multiset replayed in every order on create_stog, Netlist and Module.create_stog under 8 "
             "float embeddings, fresh and with stale roles; every observed call trace-validated by TLC (StogTrace)",
